@@ -217,7 +217,17 @@ Refs == {r \in [stage : {NoStage} \cup Stages, prod : Prods, file : Files, metho
 
 (* a context is well formed when no known component is called like a folder of the package            *)
 (* ("we consider that components cannot have the same name as a special folder")                      *)
+(* Application dependencies are given PER PLATFORM in the package: application-dependencies: {default: [...],    *)
+(* <platform>: [...]}.  doc = [default : set, has : BOOLEAN (the active platform has its own entry), other : set]. *)
+(* The dependencies that hold for the loaded platform: the platform's own entry when it has one -- an explicitly    *)
+(* EMPTY list means "none" --, the default platform's entry when it has none.                                        *)
+EffectiveDeps(doc, platform) == IF platform = "default" THEN doc.default
+                                ELSE IF doc.has THEN doc.other ELSE doc.default
+(* named deviation (not used by the model): an empty entry is mistaken for a missing one *)
+EffectiveDepsFalsy(doc, platform) == IF platform # "default" /\ doc.has /\ doc.other # {} THEN doc.other ELSE
+                                     IF platform = "default" THEN doc.default ELSE doc.default
 CtxOK(ctx) == /\ ctx.folders = FoldersOf(ctx.keys, ctx.deps)
+              /\ ctx.deps = EffectiveDeps(ctx.doc, ctx.platform) /\ ctx.platform \in {"default", "other"}
               /\ ctx.mode \in {"all", "none", "stage0", "not0"}
               /\ \A k \in KnownSet(ctx) : k[2] \notin Folders(ctx)
 ASSUME \A nm \in Names : WFName(nm)
@@ -347,6 +357,7 @@ PathsepRuleClassifies ==
 (* emission for the conformance driver: everything the implementation has to reproduce for the case   *)
 CtxJson(i) == LET x == Contexts[i] IN
    [t |-> "ctx", id |-> i, known |-> KnownSet(x), keys |-> x.keys, deps |-> x.deps,
+    platform |-> x.platform, docdefault |-> x.doc.default, dochas |-> x.doc.has, docother |-> x.doc.other,
     toplevel |-> TopLevel(x.keys), depnames |-> {<<d, DepName(d)>> : d \in x.deps},
     folders |-> Folders(x)]
 CaseJson ==
@@ -384,7 +395,7 @@ FilesFull == { <<>>, <<"f", ".", "txt">>, <<"*", ".", "txt">>, <<"d", "/", "f", 
 FilesSmall == { <<>>, <<"d", "/", "f", ".", "txt">>, <<"d", "/", "*">>, <<"stage1", ".", "x">>,
                 <<"d", "/", "out-", "%(v)s", ".", "txt">>, EmptyFile }
 MethodsAll == {"copy", "link", "ref", "copyout", "extract", "output", "loopref", "loopoutput"}
-MethodsSmall == {"ref", "copy", "output"}
+MethodsSmall == {"ref", "copy"}
 MethodsTwo == {"ref", "copyout"}
 MethodsOne == {"ref"}
 FilesTwo == { <<>>, <<"d", "/", "f", ".", "txt">> }
@@ -405,13 +416,24 @@ KeySets == << {},
 DepSets == << {}, {<<"name", ".", "ext">>},
               {<<"/", "abs", "/", "name", ".", "ext">>, <<"pkg">>, <<"n", ".", "m", ".", "ext">>,
                <<"/", "abs", "/", "deep", "/", "er", "/", "lib", ".", "ext", "/">>} >>
-MkCtx(kn, keys, deps) ==
-   [mode |-> kn, keys |-> keys, deps |-> deps, folders |-> FoldersOf(keys, deps)]
+MkCtxP(kn, keys, doc, platform) ==
+   LET deps == EffectiveDeps(doc, platform) IN
+   [mode |-> kn, keys |-> keys, deps |-> deps, folders |-> FoldersOf(keys, deps), doc |-> doc, platform |-> platform]
+Doc(dflt, has, other) == [default |-> dflt, has |-> has, other |-> other]
+MkCtx(kn, keys, deps) == MkCtxP(kn, keys, Doc(deps, FALSE, {}), "default")
 ContextsFull == [i \in 1..72 |-> MkCtx(<<"all", "none", "stage0">>[((i - 1) % 3) + 1],
                                        KeySets[(((i - 1) \div 3) % 8) + 1], DepSets[((i - 1) \div 24) + 1])]
-ContextsQuick == << MkCtx("all", KeySets[1], DepSets[1]), MkCtx("stage0", KeySets[2], DepSets[2]),
+(* contexts 1, 2, 6, 7 give their application dependencies through the platform layering: 1 = the loaded platform    *)
+(* overrides the default's {name.ext} with an explicitly EMPTY list (none hold: `name` is a component), 2 = the loaded  *)
+(* platform has no entry (inherits {name.ext}), 6 = a non-empty override of a different default, 7 = the default       *)
+(* platform is loaded and another platform's entry must not leak in                                                     *)
+ContextsQuick == << MkCtxP("all", KeySets[1], Doc(DepSets[2], TRUE, {}), "other"),
+                    MkCtxP("stage0", KeySets[2], Doc(DepSets[2], FALSE, {}), "other"),
                     MkCtx("all", KeySets[3], DepSets[3]), MkCtx("none", KeySets[4], DepSets[3]),
-                    MkCtx("all", KeySets[5], DepSets[1]), MkCtx("not0", KeySets[6], DepSets[2]),
-                    MkCtx("stage0", KeySets[7], DepSets[1]), MkCtx("all", KeySets[8], DepSets[3]) >>
+                    MkCtx("all", KeySets[5], DepSets[1]),
+                    MkCtxP("not0", KeySets[6], Doc(DepSets[3], TRUE, DepSets[2]), "other"),
+                    MkCtxP("stage0", KeySets[7], Doc({}, TRUE, DepSets[2]), "default"),
+                    MkCtx("all", KeySets[8], DepSets[3]) >>
+ASSUME \E i \in 1..Len(ContextsQuick) : EffectiveDepsFalsy(ContextsQuick[i].doc, ContextsQuick[i].platform) # ContextsQuick[i].deps
 ContextsOne == << MkCtx("stage0", KeySets[4], DepSets[3]) >>
 =============================================================================
